@@ -89,7 +89,7 @@ def run_configs(ctx, module, harness_bin, configs, actions, what_prefix, harness
             pass
         vlib.log("[cases] %s: %d REPLAY lines -> %d programs" % (cfg, total, kept))
         rep = run_harness(ctx, exe, cases, args, label)
-        ctx.cov.setdefault("programs", {})[label] = {"transitions_printed": total,
+        ctx.cov.setdefault("programs_by_config", {})[label] = {"transitions_printed": total,
                                                       "programs_replayed": kept,
                                                       "steps_compared": rep["checks"]}
         with open(cases) as f:         # a program from the middle of the file as sample
